@@ -23,6 +23,7 @@ wtmo <i> <client> <N> <MiB>                          -> <i> small Err,.. big Err
 seq <i> <client> <T> <K>                             -> <i> ok <T*K>
 seqbig <i> <client> <T> <K> <nbig>                   -> <i> ok <T*K>   (ws: oversized requests refused meanwhile)
 fwd <i> 1 <ids|dup|reuse>                            -> <i> ok         (forward_message, caller-chosen ids)
+life <i> <client> <seed>                             -> <i> ok         (one client, long mixed sequence)
 fwdres <i> 1                                         -> <i> ok         (forward timed out / cancelled: no residue)
 sched <i> <client> <N> <S0,W0,Fr0,D,T0,C0,X,A,..>    -> <i> got <tag|T|E|HANG|->,.. gates <m|u|n>,..
       (forced on the real client through the verif-hooks probe points, see fam_mux.rs `mod sched`)
@@ -56,7 +57,7 @@ def allocAll (cfg : Cfg) (s : State) : List (Nat × Nat) → Option State
 
 def showOutcome (k : Call) : String :=
   match k.pc with
-  | .returned (.resp f) => toString f.tag
+  | .returned (.resp f) => if f.tag ≥ 900000 then "E" else toString f.tag
   | .returned _ => "E"
   | .abandoning _ => "E"
   | _ => "HANG"
@@ -65,6 +66,7 @@ def parseTok (ids : List Nat) (unknownBase : Nat) (tag : Nat) (t : String) : Opt
   let n := (t.drop 1).toNat?
   match t.front, n with
   | 'e', some k => some { id := unknownBase + k, notify := false, tag := tag }   -- unknown id, ec != 0
+  | 'v', some c => (ids[c]?).map fun id => { id := id, notify := false, tag := 900000 + tag }  -- wrong version: the call fails
   | 'r', some c => (ids[c]?).map fun id => { id := id, notify := false, tag := tag }
   | 'n', some c => (ids[c]?).map fun id => { id := id, notify := true, tag := tag }
   | 'u', some k => some { id := unknownBase + k, notify := false, tag := tag }
@@ -319,6 +321,14 @@ def runSched (cfg : Cfg) (n : Nat) (acts : List String) : String :=
 def stepLine (_ : Unit) (ws : List String) : Unit × String :=
   let bad (i : String) := ((), i ++ " bad-op")
   match ws with
+  | ["case", i, client, n, ids, script, _vars] =>
+    -- `_vars`: the public entry point each caller used (call_json, call_typed_beve, registry_read, …):
+    -- all of them go through the same call path of the model
+    match cfgOf (natOf client) with
+    | none => bad i
+    | some cfg =>
+      let idl := (splitCommas ids).map natOf
+      if idl.length ≠ natOf n then bad i else ((), i ++ " " ++ runCase cfg idl (splitCommas script))
   | ["case", i, client, n, ids, script] =>
     match cfgOf (natOf client) with
     | none => bad i
@@ -337,9 +347,12 @@ def stepLine (_ : Unit) (ws : List String) : Unit × String :=
       let o := runDead cfg (natOf n) (natOf answered)
       ((), i ++ " " ++ (if (fault.splitOn ".").contains "s0" then o.replace "sub eof" "sub -" else o))
   | ["tmo", i, client, kind] =>
+    -- `late.<v>`, `zero.<v>`, `early.<v>`: the same scenario through the `_with_timeout` twin of entry point <v>
+    let base := (kind.splitOn ".").headD ""
+    let base := if base == "zero" then "late" else base
     match cfgOf (natOf client) with
     | none => bad i
-    | some cfg => ((), i ++ " " ++ runTmo cfg kind)
+    | some cfg => ((), i ++ " " ++ runTmo cfg base)
   | ["sched", i, client, n, acts] =>
     match cfgOf (natOf client) with
     | none => bad i
@@ -353,6 +366,15 @@ def stepLine (_ : Unit) (ws : List String) : Unit × String :=
     match cfgOf (natOf client) with
     | none => bad i
     | some cfg => ((), i ++ (if runSeq cfg 3 == "ok 3" then " ok" else " bad"))
+  | ["life", i, client, _seed] =>
+    -- one client through timeouts, error responses, failed serialisations, notifies, a batch, a cancel:
+    -- in the model each of these leaves the state in which the next call is served (`others_still_served`)
+    match cfgOf (natOf client) with
+    | none => bad i
+    | some cfg =>
+      let a := runTmo cfg "late"
+      let b := runCancel cfg "wait"
+      ((), i ++ (if a == "first Timeout next own" && b == "cancelled next own residue 0" && runSeq cfg 4 == "ok 4" then " ok" else " bad"))
   | ["fwdres", i, client] =>
     match cfgOf (natOf client) with
     | none => bad i
